@@ -367,6 +367,10 @@ func (e *Evaluator) evalEachStmt(node *ast.EachStmt, env *object.Env) object.Obj
 		return arrObj
 	}
 
+	if !arrObj.Is(object.ARR_OBJ) {
+		return e.newError(node, fail.ErrEachRequiresArray, arrObj.Type())
+	}
+
 	elems := arrObj.(*object.Array).Elements
 	elemsLen := len(elems)
 
